@@ -17,6 +17,9 @@
 #include <functional>
 #include <type_traits>
 #include <memory>
+#include <unistd.h>
+#include <fcntl.h>
+#include <sys/wait.h>
 #if defined(__SANITIZE_ADDRESS__)
 # include <sanitizer/asan_interface.h>
 # define C03_POISON(p, n) ASAN_POISON_MEMORY_REGION(p, n)
@@ -44,6 +47,8 @@ struct Rec {
 	std::string family, histName; unsigned histNo = 0; std::vector<std::string> opLog; std::set<std::string> failedKinds;
 	uint64_t events = 0, histEvents = 0;
 	unsigned hashMode = 0;
+	bool inChild = false;	// forked probe: nothing is written, violations are only counted
+	unsigned childViolations = 0;
 
 	std::string histText() const {
 		std::string r = fmt("history #%u %s seed=%llu ops=[", histNo, histName.c_str(), (unsigned long long)c->seed);
@@ -53,6 +58,7 @@ struct Rec {
 		return r + "]";
 	}
 	void violation(const std::string& what) {
+		if (inChild) { ++childViolations; return; }
 		c->stats.count("violations");
 		std::string kind = what.substr(0, what.find(':'));
 		if (!failedKinds.insert(kind).second) return;	// one FAIL per history and kind is enough; the op file has them all
@@ -61,6 +67,7 @@ struct Rec {
 		c->fail("C03 %s | %s: %s", what.c_str(), family.c_str(), t.c_str());
 	}
 	void emit(const char* line, const char* verdict) {
+		if (inChild) return;
 		fputs(line, s->ops); fputc('\n', s->ops); ++s->lines;
 		fputs(verdict, s->impl); fputc('\n', s->impl);
 		++events; ++histEvents;
@@ -229,7 +236,7 @@ inline unsigned classOf(const void* mgrObj, const unsigned* clsField, const char
 	if (w.id != 0 && !w.isLive) {
 		char buf[96]; snprintf(buf, sizeof buf, "t %llu %zu %zu", (unsigned long long)w.id, w.off, sizeof(unsigned));
 		r.emit(buf, "reject:touch-dead-block");
-		r.violation(fmt("known-F27 dangling-manager: the memory manager object stored at offset %zu of block#%llu (size %zu: the crew of a container that "
+		r.violation(fmt("dangling manager: the memory manager object stored at offset %zu of block#%llu (size %zu: the crew of a container that "
 			"has been destroyed) is used for %s after that block was given back", w.off, (unsigned long long)w.id, w.size, forWhat));
 		C03_UNPOISON(clsField, sizeof(unsigned)); unsigned cls = *clsField; C03_POISON(clsField, sizeof(unsigned));
 		return cls;
@@ -359,6 +366,29 @@ inline bool runOp(const std::string& text, int fault, long k, const std::functio
 	if (threw) { r.note(fmt(" -> E:%s", what)); r.c->stats.count(std::string("op_exited_with_exception.") + what); r.c->stats.nontrivial(r.family + "/" + text.substr(0, text.find(' ')) + "/" + what + fmt("/%ld", k)); }
 	else if (fired) r.c->stats.count("fault_fired_but_absorbed");
 	return threw;
+}
+
+// Runs `body` in a forked child with the recorder muted: 0 = completed without a violation, 1 = the recorder saw a
+// violation, 2 = the child crashed (sanitizer abort, signal). Used to probe operations whose failure mode is memory
+// corruption (a double destruction of rows crashes inside std::string), so that the harness survives and reports the
+// concrete history in a FAIL line instead of dying with a sanitizer trace only.
+inline int probeInChild(const std::function<void()>& body)
+{
+	fflush(nullptr);
+	pid_t pid = fork();
+	if (pid < 0) return 0;
+	if (pid == 0) {
+		int devnull = open("/dev/null", O_WRONLY);
+		if (devnull >= 0) { dup2(devnull, 1); dup2(devnull, 2); }
+		Rec& r = rec(); r.inChild = true; r.childViolations = 0;
+		try { body(); } catch (...) {}
+		_exit(r.childViolations ? 3 : 0);
+	}
+	int st = 0;
+	while (waitpid(pid, &st, 0) < 0) {}
+	if (WIFEXITED(st) && WEXITSTATUS(st) == 0) return 0;
+	if (WIFEXITED(st) && WEXITSTATUS(st) == 3) return 1;
+	return 2;
 }
 
 // random fault choice: about one operation in three runs with an armed fault
